@@ -22,6 +22,7 @@ BUDGET = {
     "gwosc": (80, 600),
     "gw5a": (24, 300),
     "trion": (150, 1500),
+    "gatemate": (60, 600),
 }
 
 
@@ -103,7 +104,7 @@ def tally(ctx, recs, label="random"):
             p["compared"] += 1
         for v in r["viol"]:
             dis.append({"kind": "monitor", "what": v, "case": c, "real": r.get("real")})
-        if fam in ("gw5a", "trion"):
+        if fam in ("gw5a", "trion", "gatemate"):
             p["compared"] -= 1 if not (r["region"] or r["borderline"] or r.get("out_of_domain")) else 0
             ctx.cov.count("oracle-only family (no Lean model):" + fam)
         if r["dis"]:
@@ -150,11 +151,14 @@ def correspond(ctx):
         ctx.log("declared range changed: " + t)
     cor = corpus_cases()
     cases = gen_cases(ctx)
+    # directed port-coverage grids: every output port / source selector / phase class of a primitive (not sampled)
+    directed = [c for fam in L.fams().values() if hasattr(fam, "directed") for c in fam.directed()]
     recs_c = L.run_cases(cor, procs=1) if cor else []
+    recs_d = L.run_cases(directed) if directed else []
     recs = L.run_cases(cases)
     dis = [{"kind": "tables", "what": "declared device range differs from the pinned reference (re-pin with C20_REPIN=1 "
             "after review): " + t} for t in tdiff[:20]]
-    dis += tally(ctx, recs_c, "corpus") + tally(ctx, recs)
+    dis += tally(ctx, recs_c, "corpus") + tally(ctx, recs_d, "directed") + tally(ctx, recs)
     dis += self_test(ctx, recs)
     ctx.cov.samples += [{"case": r["case"], "status": r["status"]} for r in recs[:6]]
     ctx.log("correspond: %d cases in %.1fs, %d disagreements/monitor hits" % (len(cor) + len(cases), time.time() - t0, len(dis)))
@@ -266,6 +270,9 @@ def search(ctx, disagreements, proof_info):
     while time.time() - t0 < budget and rounds < 6:
         rounds += 1
         cases = seeds + gen_cases(ctx, scale=0.5, only=fams) + (gen_cases(ctx, scale=0.25) if fams else [])
+        if rounds == 1:
+            cases = [c for fam in L.fams().values() if hasattr(fam, "directed") and (not fams or fam.fam in fams)
+                     for c in fam.directed()] + cases
         seeds = []
         for r in L.run_cases(cases, use_lean=False):
             if r["viol"] and not r["region"]:
